@@ -8,15 +8,52 @@ def nontrivial(prog, f):
     return f['sub'] >= 1 and f['ops'] >= 4 and sum(f['rel'].values()) >= 1
 
 
+def forced(rng, tier):
+    """listing read, then a PLACED sub-circuit grown through the handle `add()` returned (`adopt`), listing read again — the
+    parent's own entry count does not change in between (seeded change C02-m9: a listing cached per wrapper, keyed on the
+    structure's identity and the number of the wrapper's own additions); also two levels deep and with a flatten/apply between."""
+    out = []
+    gates = ['Rx180', 'Ry90', 'Hadamard', 'Wait', 'DispersiveMeasure']
+
+    def mk(c, q, rel=None):
+        cls = rng.choice(gates)
+        return ['op', c, cls, [q], 'A' if cls == 'DispersiveMeasure' else 'M', None, 0, 0, [], rel]
+    for i in range(40 if tier == 'quick' else 800):
+        p = [['new', 'f1'], ['new', 'f1']]
+        nh = 0
+        for _ in range(rng.randint(0, 2)):
+            p.append(mk(0, rng.randrange(3))); nh += 1
+        for _ in range(rng.randint(1, 3)):
+            p.append(mk(1, rng.randrange(3))); nh += 1
+        p.append(['sub', 0, 1])                       # handle nh: the placed copy
+        sub_h = nh; nh += 1
+        if rng.random() < 0.4:
+            p.append(mk(0, rng.randrange(3), [sub_h, rng.choice(['FB', 'JS', 'JE'])])); nh += 1
+        p.append([rng.choice(['list', 'list', 'ops']), 0])
+        p.append(['adopt', sub_h])                    # circuit index 2
+        for _ in range(rng.randint(1, 3)):
+            p.append(mk(2, rng.randrange(3))); nh += 1
+        p.append(['list', 0])
+        if rng.random() < 0.3:                        # a second growth after the second reading
+            p.append(mk(2, rng.randrange(3))); nh += 1
+            p.append(['ops', 0]); p.append(['list', 0])
+        if rng.random() < 0.25:
+            p += [[rng.choice(['flatten', 'apply']), 0], ['list', 0]]
+        out.append(p)
+    return out
+
+
 SPEC = streamcheck.StreamSpec(
     PROP, probes=['C02'],
     cfg=progs.GenConfig(static_durations=True, n_cmds=(4, 36), p_list=0.12, p_sub=0.14),
     n_quick=1200, n_thorough=40000,
     nontrivial=nontrivial,
     pysem=dict(groups=['facade'], effects=True),
+    extra_programs=forced,
     rule='random build programs (all classes, explicit/implicit/foreign relations, nesting, apply/flatten/copy); every '
          'listing is compared with a shadow multiset of the added leaves kept by the harness, checked for causality '
          '(reference listed earlier) and listed a second time; return values of add()/get_last_entry() are asserted; '
+         'forced programs: listing, growth of a placed sub-circuit through its kept handle, listing again; '
          'non-trivial = nesting and >= 4 operations and >= 1 explicit relation; distinct = distinct program text',
     assumptions=['MAX_GRAPH_DEPTH = 5000 and Python\'s recursion limit are not modelled; programs stay below depth 150'])
 
